@@ -45,7 +45,7 @@ def oracle_units(chk, progs, backends, tag, throws=False, proj=emit.KINDS_ALL, s
                        'bfs_depth': bfs_depth})
 
 
-def product_units(chk, progs, pairs, tag, bfs_depth=6, max_confs=40, timeout=60, variant_fn=None, opts=None):
+def product_units(chk, progs, pairs, tag, bfs_depth=6, max_confs=40, timeout=60, variant_fn=None, opts=None, throws=False):
     """two configurations of the same program in one query (no oracle): equal logs, results, active configurations"""
     for pname in progs:
         for (ca, cb) in pairs:
@@ -67,15 +67,15 @@ def product_units(chk, progs, pairs, tag, bfs_depth=6, max_confs=40, timeout=60,
             steps = [('ev', e) for e in base.events]
             confs, edges = model.bfs(base, [('start',)] + steps, max_depth=bfs_depth, max_confs=max_confs)
             confs = [c for c in confs if c[0].started]
-            o = dict(opts or {}); o['defines'] = list(o.get('defines', [])) + ['VF_NORMALIZE_IDS 1']
+            o = dict(opts or {}); o['defines'] = list(o.get('defines', [])) + ['VF_NORMALIZE_IDS 1'] + (['VF_THROW_ON 1'] if throws else [])
             parts = []
             for k, (cfg, prog) in enumerate(zip((ca, cb), progs2)):
                 o2 = dict(o)
                 if len(cfg) > 1 and cfg[1] in ('basic', 'functor'): o2['front'] = cfg[1]
                 parts.append(('_' + 'ab'[k], emit.emit_cpp(prog, o2), ['-DVF_BE=%d' % cfg[0]] + list(cfg[2] if len(cfg) > 2 else []), 'ab'[k] + '_'))
-            h, index = emit.emit_product_harness(base, confs, steps, tag)
-            name = '%s_%s%s_%s_vs_%s' % (tag, pname, '_nosmint' if nosm else '', cfg_name(ca), cfg_name(cb))
-            u = runner.Unit(name, 'P', None, h, index, parts=parts, rt_files=[runner.VERIF + '/harness/vf_product.c'])
+            h, index = emit.emit_product_harness(base, confs, steps, tag, throws=throws)
+            name = '%s%s_%s%s_%s_vs_%s' % (tag, 'x' if throws else '', pname, '_nosmint' if nosm else '', cfg_name(ca), cfg_name(cb))
+            u = runner.Unit(name, 'P', None, h, index, parts=parts, rt_files=[runner.VERIF + '/harness/vf_product.c'], exc=throws)
             u.nevents = len(base.events)
             u.spec = {'prog': pname, 'tag': tag, 'pair': [cfg_name(ca), cfg_name(cb)]}
             chk.add_unit(u)
@@ -99,6 +99,9 @@ def C13(tier, seed):
     else:
         product_units(chk, ['F1', 'R2', 'H2'], pairs, 'C13')
         product_units(chk, ['X', 'A'], pairs[:1], 'C13')
+    # the same behaviour position throws in both configurations: equal logs (including exception_caught) and configurations
+    product_units(chk, ['F1', 'H2'] + (['R2', 'A'] if tier == 'thorough' else []), pairs[:1] + (pairs[1:] if tier == 'thorough' else []), 'C13', throws=True,
+                  max_confs=(40 if tier == 'thorough' else 10))
     return chk
 
 
@@ -287,6 +290,11 @@ def C18(tier, seed):
     chk = Check('C18', tier, seed)
     be = [0, 3] + ([4] if tier == 'thorough' else [])
     oracle_units(chk, ['K'], be, 'C18', proj=STD, opts={'defines': ['VF_KLEENE_ON 1']}, bfs_depth=5, timeout=120, unwind=8, strats=['nk', 'nkG', 'pk'], cbmc_extra=('--unwindset', 'strcmp.0:48'))
+    # payload and dynamic type through deferral by a Kleene row (Defer action): 0..2 deferred events with distinct payloads
+    oracle_units(chk, ['Kd'], [0] + ([2] if tier == 'thorough' else []), 'C18', proj=STD, check_queue=True,
+                 opts={'defines': ['VF_KLEENE_ON 1'], 'queue_api': True, 'has_deferred': True},
+                 conf_filter=lambda c: c.started and len(c.deferred) + len(c.queue) <= 2, bfs_depth=5, max_confs=30, timeout=120, unwind=12,
+                 strats=['nk', 'nkG', 'pk'], cbmc_extra=('--unwindset', 'strcmp.0:48'))
     chk.assumptions.append('C18: the payload seen by Kleene behaviours is read back through any_cast on the dynamic type reported by any::type(); typeinfo name comparison uses CBMC strcmp model')
     return chk
 
@@ -342,6 +350,15 @@ def C12(tier, seed):
     progs = ['F1', 'H2', 'F1_after_exit', 'F1_before_transition', 'F1_after_transition_action'] + (['R2', 'A', 'H2_after_transition_action'] if tier == 'thorough' else [])
     oracle_units(chk, progs, be, 'C12', throws=True, proj=('G', 'A', 'E', 'X', 'N', 'C'), opts={'defines': ['VF_THROW_ON 1']},
                  bfs_depth=5, max_confs=(30 if tier == 'thorough' else 10), timeout=90, strats=['nk', 'nkG', 'pk'])
+    # backmp11 single-step draining (process_event_pool(1)) of a machine with completion transitions: a completion event is a
+    # pool entry of its own, so a throwing completion transition is dispatched by its own call; pending events stay in order
+    def pooled(prog): prog.pool_completions = True; prog.name += '_pool'
+    oracle_units(chk, ['A'], [3], 'C12', throws=True, proj=('G', 'A', 'E', 'X', 'N', 'C'), check_queue=True,
+                 opts={'defines': ['VF_THROW_ON 1'], 'queue_api': True}, prog_mod=pooled,
+                 steps_fn=lambda prog: [('exec1',), ('execq',)],
+                 bfs_steps_fn=lambda prog: [('start',)] + [('enq', e, '0') for e in prog.events] + [('exec1',)],
+                 conf_filter=lambda c: c.started and any(q[0] == '<c>' for q in c.queue) and len(c.queue) <= (3 if tier == 'thorough' else 2), bfs_depth=6, max_confs=120,
+                 timeout=90, unwind=8, strats=['pkG', 'nkG'])
     # "the machine is not wedged": an exception aborts the entry cascade of a submachine that the switch policy leaves active
     lprogs = ['H2', 'H2_before_transition'] + (['H2_after_exit', 'H2_after_transition_action'] if tier == 'thorough' else [])
     for pname in lprogs:
